@@ -31,7 +31,7 @@ RULE = (
     'distinct = (loader, fault kind, prefix length / garbage bytes).'
 )
 RULE += ' Added in rounds 7-10: digit-shift and checksum-collision argument variants; foreign cache-like files (<stem>.cache of another load, stale .tmp) next to the sources.'
-RULE += ' Round 12: to_cache / from_cache round trip of hand-built trajectories (unwrapped raw coordinates with values exactly 0, 1, -1, 2, 1-2^-53, in position form and in displacement form with whole-lattice-vector steps).'
+RULE += ' Round 12: to_cache / from_cache round trip of hand-built trajectories (unwrapped raw coordinates with values exactly 0, 1, -1, 2, 1-2^-53, in position form and in displacement form with whole-lattice-vector steps). Round 13: explicit cache paths with arbitrary suffixes (.v1/.v2, .0/.5, .pkl, none): files appear at exactly the requested paths and names differing in the last dotted part stay distinct.'
 ASSUMPTIONS = [
     'synthetic loader inputs exercise the loaders\' control flow, not the variety of real simulation output',
     'garbage that happens to be a loadable pickle of some other object is outside the statement ("unreadable") and is skipped and counted',
@@ -311,6 +311,27 @@ def _run_cfg(unit, rng, ctx, loader, d):
             ctx.check(same(hb, before) and same(hand, before), f'{what}: round trip of a hand-built trajectory ({"displacement" if disp else "position"} form, raw coordinates with exact 0 / 1 / -1 / 2) changed it', {**wit, 'raw': raw, 'got': np.asarray(hb.coords)})
             ctx.count('hand_built_round_trips')
             ctx.count('hand_built_round_trips_with_a_raw_coordinate_exactly_1', bool((raw == 1.0).any()))
+    # explicit cache paths are the caller's file names, whatever their suffix: two names that differ only in the last
+    # dotted part are two files, and the cache is left at exactly the requested path
+    stem_ = str(rng.choice(['run', 'traj_T300', 'md.prod', 'x']))
+    sfx_a, sfx_b = [str(x_) for x_ in rng.choice(['.v1', '.v2', '.0', '.5', '.pkl', '.bin', '', '.cache.old', '.cache'], size=2, replace=False)]
+    pa_, pb_ = os.path.join(d, 'named', stem_ + sfx_a), os.path.join(d, 'named', stem_ + sfx_b)
+    os.makedirs(os.path.join(d, 'named'), exist_ok=True)
+    ha_ = _gen.make_trajectory(hm, ['Li', 'O'], rng.uniform(0, 1, size=(3, 2, 3)), metadata={'temperature': 300.0}, presentation='plain')
+    hb_ = _gen.make_trajectory(hm, ['Li', 'O'], rng.uniform(0, 1, size=(4, 2, 3)), metadata={'temperature': 300.5}, presentation='plain')
+    ha_.to_cache(pa_)
+    hb_.to_cache(pb_)
+    listing_ = sorted(os.listdir(os.path.join(d, 'named')))
+    ctx.check(listing_ == sorted([stem_ + sfx_a, stem_ + sfx_b]), f'{what}: to_cache to {stem_ + sfx_a!r} and {stem_ + sfx_b!r} left the files {listing_}', wit)
+    if listing_ == sorted([stem_ + sfx_a, stem_ + sfx_b]):
+        ctx.check(same(T.from_cache(pa_), ha_) and same(T.from_cache(pb_), hb_), f'{what}: from_cache of {stem_ + sfx_a!r} / {stem_ + sfx_b!r} does not return what was saved under that name', wit)
+    pc_ = os.path.join(d, 'named', 'loader_' + stem_ + sfx_a)
+    via_, _ = quiet(cfg.call, cache=pc_)
+    ctx.check(os.path.isfile(pc_) and same(via_, fresh), f'{what}: loading with cache={os.path.basename(pc_)!r} did not leave a cache at that path (directory: {sorted(os.listdir(os.path.join(d, "named")))}) or returned another trajectory', wit)
+    if os.path.isfile(pc_):
+        ctx.check(same(T.from_cache(pc_), fresh), f'{what}: the cache left at {os.path.basename(pc_)!r} does not hold the parsed trajectory', wit)
+    ctx.count('explicit_cache_names_with_arbitrary_suffix')
+    shutil.rmtree(os.path.join(d, 'named'), ignore_errors=True)
     os.unlink(rt_path)
     # (2) load with the cache present: same result, sources untouched
     with audited() as log:
